@@ -124,9 +124,13 @@ var plShots = []string{"https://app.example.com/anything", "https://sub.example.
 func genClient(r drv.Rand, id string) *refstore.Client {
 	c := &refstore.Client{ID: id, Secret: "s", App: op.ApplicationTypeWeb, Auth: oidc.AuthMethodBasic,
 		RespTypes: []oidc.ResponseType{oidc.ResponseTypeCode, oidc.ResponseTypeIDTokenOnly}, Redirects: []string{"https://app.example.com/cb"}}
+	c.App = drv.Pick(r, []op.ApplicationType{op.ApplicationTypeWeb, op.ApplicationTypeWeb, op.ApplicationTypeNative, op.ApplicationTypeNative, op.ApplicationTypeUserAgent})
 	n := r.IntN(4)
 	for i := 0; i < n; i++ {
 		c.PostLogout = append(c.PostLogout, drv.Pick(r, postPool))
+	}
+	if r.Chance(1, 3) { // a loopback post-logout URI (logout has no RFC 8252 loopback rule: exact or opted-in glob only)
+		c.PostLogout = append(c.PostLogout, drv.Pick(r, loopbackPool))
 	}
 	if r.Chance(1, 2) {
 		c.UseGlobs = true
@@ -195,7 +199,29 @@ func patternInstance(r drv.Rand, reg string) (string, bool) {
 	return out, true
 }
 
+var loopbackPool = []string{"http://127.0.0.1:3000/bye", "http://localhost:3000/bye", "http://[::1]:3000/bye", "http://127.0.0.1/done?x=1", "http://localhost/done", "http://127.0.0.1:8080/cb/out?a=1&b=2"}
+
+// loopbackNear: loopback URIs with the path and query of reg but another port / spelling of
+// the host / scheme / userinfo / fragment. ok=false when reg is no loopback URI.
+func loopbackNear(r drv.Rand, reg string) (string, bool) {
+	u, err := url.Parse(reg)
+	if err != nil || !(u.Hostname() == "localhost" || u.Hostname() == "127.0.0.1" || u.Hostname() == "::1") {
+		return "", false
+	}
+	rest := u.EscapedPath()
+	if u.RawQuery != "" {
+		rest += "?" + u.RawQuery
+	}
+	host := drv.Pick(r, []string{"127.0.0.1", "localhost", "[::1]", "127.0.0.2", "LOCALHOST", "0.0.0.0"})
+	port := drv.Pick(r, []string{"", ":3000", ":3001", ":49152", ":80", ":0"})
+	out := drv.Pick(r, []string{"http", "http", "https", "HTTP"}) + "://" + drv.Pick(r, []string{"", "", "", "user@"}) + host + port + rest + drv.Pick(r, []string{"", "", "", "#frag"})
+	return out, out != reg
+}
+
 func mutate(r drv.Rand, base string) (string, string) {
+	if u, ok := loopbackNear(r, base); ok && r.Chance(2, 3) {
+		return u, "loopbacknear"
+	}
 	if u, ok := patternInstance(r, base); ok && r.Bool() {
 		return u, "patshot"
 	}
@@ -1189,6 +1215,9 @@ func genReq(r drv.Rand, c *esCase, tags map[string]bool) esReq {
 		base := "https://app.example.com/bye"
 		if len(owner.PostLogout) > 0 {
 			base = drv.Pick(r, owner.PostLogout)
+			if last := owner.PostLogout[len(owner.PostLogout)-1]; r.Bool() { // the loopback registration, if there is one
+				base = last
+			}
 		}
 		q.uri, uriKind = mutate(r, base)
 	}
@@ -1447,6 +1476,19 @@ func directed(w *emit.Writer) {
 				}
 			}
 			run(w, esCase{issuerMode: mode, clients: []*refstore.Client{ic, other}, reqs: seq, tags: []string{"directed=issued+nearissuer", "router=" + router.String(), fmt.Sprintf("issuer_mode=%d", mode)}})
+		}
+		// application type x registered loopback post-logout URIs x loopback near-misses
+		for _, app := range []op.ApplicationType{op.ApplicationTypeNative, op.ApplicationTypeWeb, op.ApplicationTypeUserAgent} {
+			for _, globs := range []bool{false, true} {
+				lc := &refstore.Client{ID: "ks0", App: app, PostLogout: []string{"http://127.0.0.1:3000/bye", "http://localhost/done?x=1"}, UseGlobs: globs}
+				var seq []esReq
+				for _, u := range []string{"http://127.0.0.1:3000/bye", "http://127.0.0.1:3001/bye", "http://127.0.0.1/bye", "http://localhost:3000/bye", "http://[::1]:3000/bye", "https://127.0.0.1:3000/bye",
+					"http://user@127.0.0.1:3000/bye", "http://127.0.0.1:3000/bye#f", "http://localhost:8080/done?x=1", "http://127.0.0.1/done?x=1", "http://localhost/done?x=2", "http://evil.example:3000/bye"} {
+					seq = append(seq, esReq{router: router, host: "op.example.com", hint: hintSpec{kind: "none"}, clientID: "ks0", uri: u},
+						esReq{router: router, host: "op.example.com", hint: h1, uri: u, state: "s"})
+				}
+				run(w, esCase{clients: []*refstore.Client{lc, other}, reqs: seq, tags: []string{"directed=loopback", fmt.Sprintf("app=%d", app), "router=" + router.String()}})
+			}
 		}
 		// EXTRA parameters next to every hint kind, by GET, in a POST body, and split over body and
 		// query: logout_hint / unknown names naming another user, known names twice in both orders
